@@ -14,18 +14,18 @@ import (
 
 // Mix is a world of one real otr3 conversation (index 0) and one reference party (index 1).
 type Mix struct {
-	A     *sim.Party
-	R     *ref.Party
-	RRand *sim.Rand
-	QtoR  [][]byte // otr3 -> ref
-	QtoA  [][]byte // ref -> otr3
-	Obs   *ref.Observer
-	nDraw int
-	nExp  int
-	nR    int
-	Seen  []*ref.ObsMsg
-	Calls []*sim.Call
-	asked bool
+	A              *sim.Party
+	R              *ref.Party
+	RRand          *sim.Rand
+	QtoR           [][]byte // otr3 -> ref
+	QtoA           [][]byte // ref -> otr3
+	Obs            *ref.Observer
+	nDraw          int
+	nExp           int
+	nR             int
+	Seen           []*ref.ObsMsg
+	Calls          []*sim.Call
+	asked          bool
 	RefFragPayload int
 }
 
